@@ -60,4 +60,67 @@ theorem add_empty_dict (a : Annotation) (app : Bool) : addModDict a [] app = a :
 
 example : addModDict exA [] true = exA ∧ addModDict exA [] false = exA ∧ modDict exA ≠ [] := by decide
 
+
+/-! ## the method-level `pop_mods()` dictionary is not accepted back in full
+
+`ProFormaAnnotation.pop_mods()` files the residue modifications under the string key `'internal'`, which `add_mod_dict`
+does not read (it collects integer keys). Exact statement of what comes back (notes/C20.md, Observations): every named
+field, the intervals and the charge are restored; the residue modifications are lost. The property's dictionary is
+`mod_dict()` / `pt.get_mods` / `pt.pop_mods`, for which `add_get_inverse` holds. -/
+
+theorem lookup_popMods (a : Annotation) :
+    (popMods a).1.lookup .isotope = a.isotope.map .mods ∧ (popMods a).1.lookup .static = a.static.map .mods ∧
+    (popMods a).1.lookup .labile = a.labile.map .mods ∧ (popMods a).1.lookup .unknown = a.unknown.map .mods ∧
+    (popMods a).1.lookup .nterm = a.nterm.map .mods ∧ (popMods a).1.lookup .cterm = a.cterm.map .mods ∧
+    (popMods a).1.lookup .intervals = a.intervals.map .ivs ∧ (popMods a).1.lookup .charge = a.charge.map .charge ∧
+    (popMods a).1.lookup .adducts = a.adducts.map .mods := by
+  have hnil : ∀ k : DKey, List.lookup k ([] : ModDict) = none := fun _ => rfl
+  rw [show (popMods a).1 = _ ++ [] from (List.append_nil _).symm]
+  simp only [popMods, List.append_assoc, lookup_optSeg_append, reduceCtorEq, if_false, if_true, hnil]
+  refine ⟨?_, ?_, ?_, ?_, ?_, ?_, ?_, ?_, ?_⟩
+  · cases a.isotope <;> rfl
+  · cases a.static <;> rfl
+  · cases a.labile <;> rfl
+  · cases a.unknown <;> rfl
+  · cases a.nterm <;> rfl
+  · cases a.cterm <;> rfl
+  · cases a.intervals <;> rfl
+  · cases a.charge <;> rfl
+  · cases a.adducts <;> rfl
+
+theorem intEntries_popMods (a : Annotation) : intEntries (popMods a).1 = [] := by
+  rw [show (popMods a).1 = _ ++ [] from (List.append_nil _).symm]
+  simp only [popMods, List.append_assoc]
+  repeat rw [intEntries_optSeg_append _ _ _ _ (by intro i h; cases h)]
+  rfl
+
+/-- `d = a.pop_mods(); a.add_mod_dict(d, append)` (the object is stripped by `pop_mods`): everything except the residue
+modifications comes back, in either append mode -/
+theorem pop_mods_add_back (a : Annotation) (app : Bool) :
+    addModDict (popMods a).2 (popMods a).1 app = { a with internal := none } := by
+  obtain ⟨h1, h2, h3, h4, h5, h6, h7, h8, h9⟩ := lookup_popMods a
+  unfold addModDict
+  rw [intEntries_popMods]
+  have hs : (popMods a).2 = { seq := a.seq } := rfl
+  simp only [hs]
+  rw [onKey_mods _ _ _ h1, onKey_mods _ _ _ h2, onKey_mods _ _ _ h3, onKey_mods _ _ _ h4, onKey_mods _ _ _ h5,
+    onKey_mods _ _ _ h6, onKey_mods _ _ _ h9]
+  have e7 : onKey (popMods a).1 .intervals (addIvs none · app) none = a.intervals := by
+    unfold onKey; rw [h7]; cases a.intervals <;> cases app <;> rfl
+  have e8 : ∀ f : DVal → Option Int, (∀ c, f (.charge c) = some c) → onKey (popMods a).1 .charge f none = a.charge := by
+    intro f hf; unfold onKey; rw [h8]; cases a.charge <;> simp [hf]
+  rw [e7, e8 _ (fun c => rfl)]
+  cases a; simp
+
+/-- hence the method-level round trip is exact precisely when there are no residue modifications -/
+theorem pop_mods_add_back_iff (a : Annotation) (app : Bool) :
+    addModDict (popMods a).2 (popMods a).1 app = a ↔ a.internal = none := by
+  rw [pop_mods_add_back]
+  constructor
+  · intro h; rw [← h]
+  · intro h; cases a; simp_all
+
+example : addModDict (popMods exA).2 (popMods exA).1 = { exA with internal := none } ∧ exA.internal ≠ none ∧
+    addModDict (popMods exA).2 (popMods exA).1 ≠ exA := by decide
+
 end Pept.C20Ext
